@@ -393,9 +393,11 @@ impl Gen {
             (Some(self.rate()), Some(self.rng.pick(&["frank", "erin", "alice", "carol", "bob"]).to_string()))
         };
         let req = |g: &mut Gen| -> Vec<String> {
-            match g.rng.below(8) {
+            match g.rng.below(9) {
                 0 => vec!["kyc".to_string()],
                 1 => vec!["kyc".to_string(), "accred".to_string()],
+                // a name listed twice (legal, nothing validates the list): still satisfiable
+                2 => g.rng.pick(&[vec!["kyc", "kyc"], vec!["kyc", "accred", "kyc"]]).iter().map(|x| x.to_string()).collect(),
                 _ => vec![],
             }
         };
@@ -451,6 +453,15 @@ impl Gen {
                         4 => 0,
                         _ => pw,
                     });
+                    if self.rng.pct(12) {
+                        // coherent increments beyond 2^64 / 2^96 (anything converting them to a 96-bit
+                        // decimal or a narrower integer breaks): the largest multiples of 10^p that fit
+                        let lim = *self.rng.pick(&[1u128 << 64, 1 << 96, (1 << 96) + 12345, 1 << 127, u128::MAX]);
+                        let inc = lim - lim % pw;
+                        if inc >= 1 {
+                            m.size_increment = Uint128::new(inc);
+                        }
+                    }
                 }
                 6 => m.ask_fee_rate = None,
                 7 => m.ask_fee_account = None,
@@ -944,16 +955,18 @@ impl Gen {
             bfa = b;
         }
         if r.pct(20) {
-            aattrs = Some(match r.below(3) {
+            aattrs = Some(match r.below(4) {
                 0 => vec![],
                 1 => vec!["kyc".to_string()],
+                3 => vec!["kyc".to_string(), "kyc".to_string()],
                 _ => info.ask_required_attributes.clone(),
             });
         }
         if r.pct(20) {
-            battrs = Some(match r.below(3) {
+            battrs = Some(match r.below(4) {
                 0 => vec![],
                 1 => vec!["kyc".to_string()],
+                3 => vec!["kyc".to_string(), "accred".to_string(), "kyc".to_string()],
                 _ => info.bid_required_attributes.clone(),
             });
         }
@@ -1482,7 +1495,7 @@ impl Gen {
             m.ask_required_attributes = Some(if r.pct(50) { vec![] } else { vec!["kyc".into()] });
         }
         if r.pct(20) {
-            m.bid_required_attributes = Some(if r.pct(50) { vec![] } else { vec!["accred".into()] });
+            m.bid_required_attributes = Some(match r.below(3) { 0 => vec![], 1 => vec!["accred".into()], _ => vec!["kyc".into(), "kyc".into()] });
         }
         m
     }
